@@ -259,6 +259,27 @@ def r16_ok_or_else(sig, body):
     return sig, body, n
 
 
+def r17_inclusive_range(sig, body):
+    """R17: `for x in A..=B` -> `for x in A..(B + 1)` (same iteration space; the `+ 1` becomes an overflow obligation)"""
+    n = 0
+    while True:
+        hit = None
+        for kind, kw, ob, cb in rsx.find_loops(body):
+            if kind != 'for':
+                continue
+            hdr = body[kw:ob]
+            m = re.match(r'(for\s+\w+\s+in\s+)(.+?)\.\.=(.+?)\s*$', hdr, re.S)
+            if m:
+                hit = (m, kw, ob)
+                break
+        if not hit:
+            break
+        m, kw, ob = hit
+        body = body[:kw] + '%s%s..(%s + 1) ' % (m.group(1), m.group(2), m.group(3).strip()) + body[ob:]
+        n += 1
+    return sig, body, n
+
+
 RULES = {
     'R1': r1_error_macro,
     'R3': r3_continue_guard,
@@ -272,6 +293,7 @@ RULES = {
     'R13': r13_format,
     'R15': r15_ref_pattern,
     'R16': r16_ok_or_else,
+    'R17': r17_inclusive_range,
     'R14': r14_intern,
 }
 
